@@ -29,6 +29,8 @@ type VPipe struct {
 	Rendezvous bool  // io.Pipe-like: Write returns only when everything was consumed
 	Writes     int   // completed Write calls
 	FailWrite  int   // the n-th Write call and all later ones fail (1-based; 0 = never)
+	FailOnce   int   // the n-th Write call fails, later ones work again (a transient failure; 0 = never)
+	SinkClosed bool  // writes after the writer was closed are accepted and dropped (a WriteCloser whose Close does not stop it)
 	FailErr    error // error of failing writes (default: a plain injected error; io.EOF models a closed ssh channel)
 	CutAfter   int   // the reader sees EOF/err after this many bytes in total (-1 = never)
 	CutErr     error
@@ -72,8 +74,17 @@ func (p *VPipe) Read(b []byte) (int, error) {
 func (p *VPipe) Write(b []byte) (int, error) {
 	vsched.Env("pipe.write:"+p.Name, p, false, nil)
 	p.Writes++
+	if p.SinkClosed && p.wclosed {
+		return len(b), nil
+	}
 	if p.rclosed || p.wclosed {
 		return 0, io.ErrClosedPipe
+	}
+	if p.FailOnce > 0 && p.Writes == p.FailOnce {
+		if p.FailErr != nil {
+			return 0, p.FailErr
+		}
+		return 0, errors.New("injected transient write failure")
 	}
 	if p.FailWrite > 0 && p.Writes >= p.FailWrite { // a dead transport stays dead
 		if p.FailErr != nil {
